@@ -22,11 +22,13 @@ class Group:
     pass
 
 
-def build(ex, shape, sym_soc=True, wide_battery=False, soc_pattern=None):
+def build(ex, shape, sym_soc=True, wide_battery=False, soc_pattern=None, oneway=None):
     """shape: tuple of (n_batteries, n_inverters) per group.  Returns (pairs, groups) with symbolic data and the
     documented consistency assumptions.  soc_pattern: concrete SoC per group (see below).  wide_battery: the batteries' own capacity, SoC limits and power bounds are concrete
     and non-binding (capacity 1, limits 0..100, bounds +-1e9, no exclusion zone); only their SoC and the inverter data stay symbolic."""
     A = ex.assume
+    oneway = oneway or {}   # {group: +1 | -1}: a charge-only (+1) / discharge-only (-1) group without exclusion zone (concrete zeros)
+    ow = lambda g: ({"il": 0.0, "el": 0.0, "eu": 0.0} if oneway[g] > 0 else {"el": 0.0, "eu": 0.0, "iu": 0.0}) if g in oneway else {}  # noqa: E731
     pairs, groups = [], []
     for g, (nb, ni) in enumerate(shape):
         G = Group()
@@ -40,6 +42,7 @@ def build(ex, shape, sym_soc=True, wide_battery=False, soc_pattern=None):
                 # concrete SoC data (capacity 1, limits 0..100, SoC from the pattern): the availability ratios become concrete, so
                 # every share is linear in the symbolic request and bounds (QF_LRA instead of QF_NRA)
                 v.update(cap=1.0, slo=0.0, shi=100.0, soc=float(soc_pattern[g][b] if isinstance(soc_pattern[g], (tuple, list)) else soc_pattern[g]))
+            v.update(ow(g))
             A(E(v["cap"]) > 0)
             A(z3.And(E(v["slo"]) >= 0, E(v["slo"]) <= E(v["shi"]), E(v["shi"]) <= 100))
             A(z3.And(E(v["soc"]) >= 0, E(v["soc"]) <= 100))
@@ -51,6 +54,7 @@ def build(ex, shape, sym_soc=True, wide_battery=False, soc_pattern=None):
                 power_exclusion_upper_bound=v["eu"], power_inclusion_upper_bound=v["iu"]))
         for i in range(ni):
             w = {k: ex.real(f"g{g}i{i}_{k}") for k in ("il", "el", "eu", "iu")}
+            w.update(ow(g))
             A(z3.And(E(w["il"]) <= E(w["el"]), E(w["el"]) <= 0, 0 <= E(w["eu"]), E(w["eu"]) <= E(w["iu"])))
             G.invs.append(w)
             invs.append(InverterDataWrapper(
